@@ -3,6 +3,7 @@ package lua
 import (
 	"context"
 	"fmt"
+	"math/rand"
 	"os"
 )
 
@@ -210,6 +211,7 @@ type Global struct {
 	builtinMts map[int]LValue
 	tempFiles  []*os.File
 	gccount    int32
+	random     *rand.Rand // source of math.random once math.randomseed has been called
 }
 
 type LState struct {
